@@ -89,6 +89,7 @@ func runCtxCase(a args, idx int, r *h.Rand) {
 		tasks = append(tasks, t)
 	}
 	cancelBeforeFinish := r.Chance(25)
+	cancelMid := how == "simultaneous" && r.Chance(35)
 	out.Begin(fmt.Sprintf("ctx#%d %s cancel_before_finish=%v", idx, how, cancelBeforeFinish))
 	tr := newQuietRunner()
 	tr.SetContexts(ctxs)
@@ -102,6 +103,22 @@ func runCtxCase(a args, idx int, r *h.Rand) {
 	case "simultaneous":
 		var wg sync.WaitGroup
 		gate := make(chan struct{})
+		if cancelMid {
+			// every task stays in flight for a while; the runner is cancelled in the middle
+			for _, t := range tasks {
+				t.Commands = append(t.Commands, "sh -c 'exec sleep 0.3'")
+				t.Condition = ""
+				tk := info.Tasks[t.Name]
+				tk.Skipped = false
+				info.Tasks[t.Name] = tk
+			}
+			info.CancelledMid = true
+			go func() {
+				<-gate
+				time.Sleep(time.Duration(20+r.Intn(150)) * time.Millisecond)
+				tr.Cancel()
+			}()
+		}
 		for _, t := range tasks {
 			wg.Add(1)
 			go func(t *task.Task) {
